@@ -86,7 +86,7 @@ func (g *docGen) inline(depth int) string {
 	switch g.r.Intn(14) {
 	case 0:
 		g.f("inline-a")
-		return fmt.Sprintf(`<a href="/link/%d">%s</a>`, g.tok, txt)
+		return fmt.Sprintf(`<a href="/link/%d"%s>%s</a>`, g.tok, g.vocabAttrs(), txt)
 	case 1:
 		g.f("inline-b")
 		return "<b>" + txt + "</b>"
@@ -118,7 +118,10 @@ func (g *docGen) inline(depth int) string {
 		return txt + `<sup class="reference"><a href="#cite_note-1">[1]</a></sup>`
 	case 11:
 		g.f("inline-img")
-		return fmt.Sprintf(`<img src="inline%d.png" width="%d" height="%d" alt="%s">`, g.tok, g.r.Range(1, 800), g.r.Range(1, 600), g.word())
+		if g.r.P(1, 3) {
+			return fmt.Sprintf(`<img%s%s>`, g.vocabAttrs(), g.vocabAttrs())
+		}
+		return fmt.Sprintf(`<img src="inline%d.png" width="%d" height="%d" alt="%s"%s>`, g.tok, g.r.Range(1, 800), g.r.Range(1, 600), g.word(), g.vocabAttrs())
 	default:
 		return txt
 	}
@@ -128,7 +131,41 @@ var sprinkleClasses = []string{"comment", "sidebar", "footer", "share", "social"
 
 // attrs sometimes returns a class and/or id attribute from a vocabulary the
 // heuristics care about, for arbitrary elements (inside tables, lists, quotes...).
+// vocabAttrs returns attributes built from the tokens harvested from the
+// library's own source (names it looks for), in arbitrary roles.
+func (g *docGen) vocabAttrs() string {
+	if len(VocabNames) == 0 || !g.r.P(1, 6) {
+		return ""
+	}
+	g.f("vocab-attr")
+	var sb strings.Builder
+	for i := 0; i < g.r.Range(1, 3); i++ {
+		name := Pick(g.r, VocabNames)
+		val := Pick(g.r, VocabValues)
+		switch g.r.Intn(7) {
+		case 0:
+			fmt.Fprintf(&sb, ` class="%s"`, name)
+		case 1:
+			fmt.Fprintf(&sb, ` id="%s"`, name)
+		case 2:
+			fmt.Fprintf(&sb, ` class="%s %s"`, name, Pick(g.r, VocabNames))
+		case 3:
+			fmt.Fprintf(&sb, ` %s="%s"`, strings.ToLower(name), val)
+		case 4:
+			fmt.Fprintf(&sb, ` %s="/img/v%d.jpg"`, strings.ToLower(name), g.tok)
+		case 5:
+			fmt.Fprintf(&sb, ` %s=""`, strings.ToLower(name))
+		case 6:
+			fmt.Fprintf(&sb, ` role="%s"`, name)
+		}
+	}
+	return sb.String()
+}
+
 func (g *docGen) attrs() string {
+	if v := g.vocabAttrs(); v != "" {
+		return v
+	}
 	if !g.r.P(1, 5) {
 		return ""
 	}
@@ -652,6 +689,17 @@ func (g *docGen) head(host string) {
 			g.wf(`<meta property="profile:first_name" content="%s"><meta property="profile:last_name" content="%s">`, g.word(), g.word())
 		}
 	}
+	if len(VocabColon) > 0 && g.r.P(1, 4) {
+		g.f("vocab-meta")
+		for i := 0; i < g.r.Range(1, 4); i++ {
+			g.wf(`<meta %s="%s" content="%s">`, Pick(g.r, []string{"property", "name", "itemprop"}), Pick(g.r, VocabColon), Pick(g.r, []string{g.word(), "http://" + host + "/m.jpg", "12", ""}))
+		}
+	}
+	if len(VocabNames) > 0 && g.r.P(1, 5) {
+		for i := 0; i < g.r.Range(1, 3); i++ {
+			g.wf(`<meta name="%s" content="%s">`, Pick(g.r, VocabNames), g.words(2))
+		}
+	}
 	if g.r.P(1, 6) {
 		g.f("ie-reader-off")
 		g.w(`<meta name="IE_RM_OFF" content="true">`)
@@ -757,7 +805,13 @@ func (g *docGen) body(host string) string {
 		if i == pagerAt {
 			pageURL = g.pager(host)
 		}
-		switch x := g.r.Intn(41); {
+		switch x := g.r.Intn(42); {
+		case x == 41:
+			if len(VocabNames) > 0 {
+				g.f("vocab-element")
+				tag := strings.ToLower(Pick(g.r, VocabNames))
+				g.wf("<%s%s>%s</%s>\n", tag, g.vocabAttrs(), g.words(g.r.Range(3, 30)), tag)
+			}
 		case x == 40:
 			g.deep()
 		case x < 18:
